@@ -1,10 +1,14 @@
-SPECIFICATION Spec
+SPECIFICATION LiveSpec
 CONSTANTS
   MaxFrames = 4
+  MaxUnderFrames = 3
+  MaxUnders = 0
   Emit = TRUE
 INVARIANT TypeOK
 INVARIANT Sound
 INVARIANT Complete
 INVARIANT UndersMatch
+INVARIANT ConsistentBuilds
 INVARIANT Verdict
+PROPERTY Termination
 CHECK_DEADLOCK FALSE
